@@ -14,7 +14,7 @@ from .. import gen as G
 
 FILES = ["a.py", "b.js", "src/a.py", "src/c.ts", "src/deep/e.java", "lib/f.c", "lib/g.cpp", "K.cs",
          "tests/t.py", ".hid/x.py", "notes.txt", "src/m.py", "lib/b.js", "lib/h.h", "src/deep/i.hpp"]
-WEIRD = ['we"ird.py', "back\\slash.py", "café.py", "sp ace.js"]
+WEIRD = ['we"ird.py', "back\\slash.py", "café.py", "sp ace.js", "cafe\u0301.py", "caf\udce9.py", "-dash.py", "files.py"]
 DIR_MOVES = [("src", "pkg"), ("lib", "src/lib"), ("src/deep", "deep"), ("pkg", "src"), ("src", "tests")]
 SHAPES = ("one2", "one16", "one31", "one61", "multi", "nested", "strings", "enc_latin1", "multi_ws", "empty", "one30",
           "big", "uni", "twins", "nocl", "bare31")
@@ -126,7 +126,9 @@ def random_op(rng, files, weights):
             op["read_fault"] = {"n": rng.randrange(0, 14)}   # EIO on the n-th tree file the scan opens
         return op
     if k == "report":
-        return {"op": "report", "fmt": rng.choice(("text", "markdown")), "nonce": n}
+        return {"op": "report", "fmt": rng.choice(("text", "markdown")), "nonce": n, "diff": rng.random() < 0.4}
+    if k == "save_baseline":
+        return {"op": "save_baseline", "version": rng.choice((None, None) + tuple(OTHER_VERSIONS))}
     if k == "findings":
         return {"op": "findings", "fmt": rng.choice(("text", "markdown")), "full": rng.random() < 0.5, "nonce": n}
     if k == "set_git":
@@ -141,7 +143,7 @@ def random_op(rng, files, weights):
 
 BASE_WEIGHTS = {"write": 6, "delete": 2, "rename": 3, "swap": 2, "touch": 1, "edit": 2, "link": 0.6, "set_yml": 1, "set_gitignore": 1,
                 "set_cli": 1, "set_version": 1, "identity": 1.5, "cache_fault": 0.0, "clock": 1, "scan": 5,
-                "report": 0.7, "findings": 0.7, "set_git": 1.0, "set_spelling": 0.4, "set_env": 0.6}
+                "report": 0.9, "findings": 0.7, "save_baseline": 0.6, "set_git": 1.0, "set_spelling": 0.4, "set_env": 0.6}
 
 # ---------------------------------------------------------------------------
 # small-scope enumeration (thorough tier): all histories of length <= 3
